@@ -46,6 +46,12 @@ def bad (cmds impl : List String) (kind : String) : Bool := (judge cmds impl).an
 
 /-! object level: what the file may contain -/
 def setL := "set i1 s61 i3 i7 i5"
+
+/-! restore_object(file, 1): the variable whose line cannot be restored keeps its value -/
+#guard ok [setL, "wf 00", "ro 1"] ["err restore_object(): Illegal array format while restoring va.", "roerr", "vars a[i1,i7,s61,i3,i7,o,i5]"]
+#guard bad [setL, "wf 00", "ro 1"] ["err restore_object(): Illegal array format while restoring va.", "roerr", "vars a[i1,i7,i0,i3,i7,o,i5]"] "variable-changed-by-failed-restore va"
+#guard ok [setL, "wf 00", "ro 0"] ["err restore_object(): Illegal array format while restoring va.", "roerr", "vars a[i0,i7,i0,i0,i7,i0,i0]"]
+
 -- file: "#/c16/obj.c\nvi 1\nva \"a\"\nvb 3\nvo \nvc 5\n"
 #guard ok [setL, "so 1"] ["so 1", "file 232f6331362f6f626a2e630a766920310a7661202261220a766220330a766f200a766320350a"]
 -- a static variable (vs 7) in the file
